@@ -185,6 +185,7 @@ def run(ctx):
     bad = ctx.validate("LoDOpsTrace", records)
     for i, clause in bad:
         ctx.fail(clause, sig_of(records[i]), {"rec": records[i]})
+    histories(ctx, 700 if quick else 10000)
     for i in range(0, len(records), max(1, len(records) // 6)):
         ctx.sample(records[i])
     ctx.extra["calls_per_op"] = count
@@ -196,9 +197,72 @@ def run(ctx):
     ctx.assumptions += ["calls on inputs outside Supported(l, a) (a key missing from some item, negative n) are executed but never judged"]
 
 
+HISTORY_CLAUSES = ("SM:editor-changed-items-other-than-as-documented", "SM:result-holds-wrong-item-objects",
+                   "SM:reader-result-not-a-function-of-the-current-items", "SM:raised", "SM:no-new-list",
+                   "SM:sample-not-an-ordered-sublist")
+
+
+def histories(ctx, n):
+    """Histories on the session machine (LoDSM, shared with C17): readers (keys, pluck), derivations and editors
+    interleaved on a growing set of lists.  What a transformation returns is a function of its receiver's current
+    items - whatever was read, derived or edited before.  The clauses about contents belong to this property; the
+    ones about flags, warnings and isolation to C17."""
+    from props import c17
+    rng = ctx.rng
+    traces = [c17.random_trace(rng, rng.randint(2, 6)) for _ in range(n)]
+    # focused: a reader, then a derivation that changes which items (hence which keys) the list holds, then a
+    # transformation whose result depends on the set of keys / items
+    derive = [a for a in c17.UNARY if a["op"] in ("append", "insert", "filter", "filter_out", "head", "tail", "slice", "drop_na", "mul")]
+    after = [{"op": "fill_all"}, {"op": "keys"}, {"op": "unique", "keys": ["a"]}, {"op": "sort", "keys": ["a"], "dirs": [1]},
+             {"op": "pluck", "k": "b"}, {"op": "fill", "kv": [["b", 0]]}]
+    for _ in range(n // 2):
+        init = [{"a": rng.choice([-1, 0, 1]), **({"b": rng.choice([-1, 0, 1])} if rng.random() < 0.5 else {})}
+                for _ in range(rng.randint(1, 3))]
+        sess = c17.Session(init)
+        tr = {"init": {"items": [to_abs(x) for x in sess.keep], "lists": [[sess.ids[id(it)] for it in list.__iter__(sess.lists[0])]]},
+              "steps": []}
+        plan = [{"x": 1, "o": 0, "a": rng.choice([{"op": "keys"}, {"op": "pluck", "k": "b"}, {"op": "sort", "keys": ["a"], "dirs": [1]}])}]
+        for e in plan:
+            e["obs"] = sess.step(e)
+            tr["steps"].append(e)
+        for _ in range(rng.randint(1, 2)):
+            e = {"x": len(sess.lists), "o": 0, "a": rng.choice(derive)}
+            e["obs"] = sess.step(e)
+            tr["steps"].append(e)
+            if e["obs"]["err"]:
+                break
+        e = {"x": len(sess.lists), "o": 0, "a": rng.choice(after)}
+        e["obs"] = sess.step(e)
+        tr["steps"].append(e)
+        traces.append(tr)
+    bad = c17.ctx_validate_traces(ctx, traces)
+    for ti, step, clause in bad:
+        if clause.startswith(HISTORY_CLAUSES):
+            e = traces[ti]["steps"][step - 1]
+            ctx.fail("history:" + clause.rsplit(":", 1)[0], {"op": e["a"]["op"], "history": True,
+                                                             "ops_before": sorted({x["a"]["op"] for x in traces[ti]["steps"][:step - 1]})[:6]},
+                     {"trace": traces[ti], "failing_step": step})
+    ctx.extra["session_histories"] = len(traces)
+
+
 def replay(ctx, rp):
     import dataiter as di
     for case in rp["cases"]:
+        if "trace" in case:
+            from props import c17
+            tr0 = case["trace"]
+            s = c17.Session([dict(x) for x in tr0["init"]["items"]], tr0.get("nested", False))
+            tr = {"init": tr0["init"], "nested": tr0.get("nested", False), "steps": []}
+            for e0 in tr0["steps"]:
+                e = {"x": e0["x"], "o": e0["o"], "a": e0["a"]}
+                e["obs"] = s.step(e)
+                tr["steps"].append(e)
+            bad = c17.ctx_validate_traces(ctx, [tr])
+            for _, step, clause in bad:
+                if clause.startswith(HISTORY_CLAUSES):
+                    ctx.fail("history:" + clause.rsplit(":", 1)[0], {"op": tr["steps"][step - 1]["a"]["op"], "history": True}, {"trace": tr, "failing_step": step})
+            print("replayed history of", len(tr["steps"]), "calls ->", [(s_, c) for _, s_, c in bad] or "accepted")
+            continue
         rec0 = case["rec"]
         rec, _ = execute(di.ListOfDicts([to_py(x) for x in rec0["l"]]), rec0["a"])
         bad = ctx.validate("LoDOpsTrace", [rec])
